@@ -111,12 +111,12 @@ CLAIMED = {
   technique="Lean 4 proof (bit-packing round trip + decide +kernel over the full header product + table equalities) + header-builder correspondence",
   ref="DESIGN.md §5 C05"),
  "C02": dict(
-  text='Lean 4 theorems (Props/C02.lean) for FLAC: FLAC._save as a FileM program (resize_bytes; seek; write) on the bytes of any well-formed layout, for every buffer size, padding choice and new block list, leaves a file that the strict format walker accepts and whose prefix, foreign blocks (in order, byte-identical) and audio are unchanged; delete likewise. Partial: the other 21 taggable formats are decided by independent container walkers on the real output over random edit histories (foreign pieces compared byte for byte and in order after every save/delete).',
+  text='Free-standing ID3 files (MP3, TrueAudio: [ID3v2][audio][ID3v1]) are modelled too (Model/Container/Id3File.lean: ID3Header, find_id3v1, ID3.save, id3.delete) and tied byte for byte on synthesised layouts: id3_save_preserves_audio, id3_delete_preserves_audio. Lean 4 theorems (Props/C02.lean) for FLAC: FLAC._save as a FileM program (resize_bytes; seek; write) on the bytes of any well-formed layout, for every buffer size, padding choice and new block list, leaves a file that the strict format walker accepts and whose prefix, foreign blocks (in order, byte-identical) and audio are unchanged; delete likewise. Partial: the other 21 taggable formats are decided by independent container walkers on the real output over random edit histories (foreign pieces compared byte for byte and in order after every save/delete).',
   note='Trusted: Lean kernel; standard axioms; for FLAC the block-level model (a block is (code, payload as written by its write())) tied to the code by the walker oracle on real output; for the other formats the independent Python walkers in harness/walkers.py (written from the format specifications) are the oracle and nothing is proved yet.',
   technique='Lean 4 proof (refinement of FLAC._save to a layout-level model via the C11 region-replacement theorem) + independent walkers over edit histories',
   ref='DESIGN.md §5 C02'),
  "C03": dict(
-  text='Lean 4 theorems (Props/C03.lean) for FLAC: walk(render L) = L for well-formed layouts; by induction over ANY finite history of saves (any comment payload, any padding choice) and deletes the file stays accepted by the strict walker (exactly the final block flagged last, sizes = extents) with unchanged foreign data; the bytes written equal the rendering of the model layout. Ogg page-level validity is Props/C15.lean. Partial: for the other formats structural rules (sizes=extents at every level, even alignment, CRCs/sequence numbers, APEv2 header/footer agreement, DSF size/pointer fields, syncsafe ID3 sizes) and reload + unchanged stream info are checked by the walkers after every step of random histories.',
+  text='For free-standing ID3 files: id3_save_header_consistent (the header a reader accepts, its syncsafe size field = frames + padding = the bytes before the audio). Lean 4 theorems (Props/C03.lean) for FLAC: walk(render L) = L for well-formed layouts; by induction over ANY finite history of saves (any comment payload, any padding choice) and deletes the file stays accepted by the strict walker (exactly the final block flagged last, sizes = extents) with unchanged foreign data; the bytes written equal the rendering of the model layout. Ogg page-level validity is Props/C15.lean. Partial: for the other formats structural rules (sizes=extents at every level, even alignment, CRCs/sequence numbers, APEv2 header/footer agreement, DSF size/pointer fields, syncsafe ID3 sizes) and reload + unchanged stream info are checked by the walkers after every step of random histories.',
   note='Trusted: Lean kernel; standard axioms; for FLAC the block-level model (a block is (code, payload as written by its write())) tied to the code by the walker oracle on real output; for the other formats the independent Python walkers in harness/walkers.py (written from the format specifications) are the oracle and nothing is proved yet.',
   technique='Lean 4 proof (induction over edit histories of a layout-level model, parse/render round trip) + independent walkers',
   ref='DESIGN.md §5 C03'),
